@@ -25,6 +25,10 @@ package literals
 //@   property C09 C05
 //@   skip safety call-requires
 //@   ensures @prunes-only-nosplit-const-and-linker-vars: !r0 ==> dyntypeis(cursor.Node(), *ast.FuncDecl) || (dyntypeis(cursor.Node(), *ast.GenDecl) && cursor.Node().(*ast.GenDecl).Tok == token.CONST) || dyntypeis(cursor.Node(), *ast.ValueSpec)
+//@   ensures @nosplit-functions-are-left-alone: [C05] dyntypeis(cursor.Node(), *ast.FuncDecl) && cursor.Node().(*ast.FuncDecl).Doc != nil && (exists k int :: 0 <= k && k < len(cursor.Node().(*ast.FuncDecl).Doc.List) && strings.HasPrefix(cursor.Node().(*ast.FuncDecl).Doc.List[k].Text, "//go:nosplit")) ==> !r0
+//@   ensures @constant-declarations-are-left-alone: [C05] dyntypeis(cursor.Node(), *ast.GenDecl) && cursor.Node().(*ast.GenDecl).Tok == token.CONST ==> !r0
+//@   loop 0
+//@     invariant forall j int :: 0 <= j && j < _i ==> !strings.HasPrefix(node.Doc.List[j].Text, "//go:nosplit")
 //@ end
 
 //@ func handleCompositeLiteral
